@@ -42,9 +42,9 @@ def pipelines():
   }
 
 
-def concretise(ranks, palette):
+def concretise(ranks, palette, missing=np.nan):
   k = max(ranks)
-  return np.array([[np.nan if r == 0 else PALETTES[palette](r, k)] for r in ranks], dtype=np.float64)
+  return np.array([[missing if r == 0 else PALETTES[palette](r, k)] for r in ranks], dtype=np.float64)
 
 
 def observe(job):
@@ -52,18 +52,25 @@ def observe(job):
   reuse = len(job) > 3 and job[3]
   P = pipelines()
   factory, strict, maps_inf, has_inv = P[pname]
-  x = concretise(ranks, palette)
+  neginf = len(job) > 4 and job[4]           # missing entries given as -inf instead of NaN
+  x = concretise(ranks, palette, -np.inf if neginf else np.nan)
   is_pipeline = pname in ('default', 'warp_outliers')
+  partial = False
   if not is_pipeline and (0 in ranks and pname != 'InfeasibleWarper'):
-    # components that run after the infeasible-label handling get complete arrays only
-    return None
+    # components that run after the infeasible-label handling promise nothing about the VALUES of arrays with missing
+    # entries; what is still judged on them: the input is not modified, no reversal among the entries that stay finite,
+    # and (where an inverse exists) un-warping returns the observed values
+    if pname not in ('HalfRank', 'LogWarper', 'ZScoreLabels', 'NormalizeLabels'):
+      return None
+    partial = True
+    strict = False
   if not is_pipeline and max(ranks) < 2:
     # a single distinct value is a degenerate input that only the pipelines promise to handle (documented shortcuts)
     return None
   x0 = x.copy()
   rec = {'ranks': list(ranks), 'palette': palette, 'pipeline': pname, 'reused': bool(reuse), 'strict': bool(strict), 'maps_infeasible': bool(maps_inf), 'refused': False,
          'inp': [fkey.key(v) for v in x0[:, 0]], 'out': [fkey.key(0.0)] * len(ranks), 'finite': [True] * len(ranks), 'untouched': True, 'shape_ok': True,
-         'back_ok': True, 'is_pipeline': is_pipeline}
+         'back_ok': True, 'is_pipeline': is_pipeline, 'neginf': bool(neginf)}
   try:
     w = factory()
     if reuse:
@@ -83,7 +90,15 @@ def observe(job):
   rec['untouched'] = bool(np.array_equal(x, x0, equal_nan=True))
   # an inverse exists for complete arrays with at least two distinct values (degenerate inputs take documented shortcuts;
   # with missing entries the worst feasible value and the infeasible ones share one warped value)
-  if has_inv and rec['shape_ok'] and all(rec['finite']) and 0 not in ranks and max(ranks) >= 2:
+  feas = [i for i, r in enumerate(ranks) if r != 0]
+  if has_inv and partial and rec['shape_ok'] and max(ranks) >= 2 and all(rec['finite'][i] for i in feas):
+    try:
+      back = np.asarray(w.unwarp(y[feas]))           # un-warping is defined on observed values only
+      rec['back_ok'] = bool(np.allclose(back[:, 0], x0[feas, 0], rtol=1e-6, atol=1e-9 * max(1.0, float(np.max(np.abs(x0[feas]))))))
+    except Exception as e:  # pylint: disable=broad-except
+      rec['back_ok'] = False
+      rec['error'] = 'unwarp %s: %s' % (type(e).__name__, str(e)[:80])
+  elif has_inv and rec['shape_ok'] and all(rec['finite']) and 0 not in ranks and max(ranks) >= 2:
     try:
       back = np.asarray(w.unwarp(y))
       obs = ~np.isnan(x0[:, 0])
@@ -113,6 +128,8 @@ def run(ctx):
             continue
         for pal in pals:
           jobs.append((ranks, pal, pname))
+          if 0 in ranks:
+            jobs.append((ranks, pal, pname, False, True))      # the same array with -inf for the missing entries
           # ... then the whole array, on the same instance (pipelines and their stateful components)
           if pname in ('default', 'warp_outliers', 'LogWarper', 'HalfRank') and sum(1 for r in ranks if r) >= 3 and max(ranks) >= 3:
             jobs.append((ranks, pal, pname, True))
@@ -120,7 +137,7 @@ def run(ctx):
       obs = [o for o in ex.map(observe, jobs, chunksize=64) if o is not None]
     path = os.path.join(d, 'w_obs.json')
     with open(path, 'w') as f:
-      json.dump([{k: v for k, v in o.items() if k not in ('error', 'palette', 'reused')} for o in obs], f)
+      json.dump([{k: v for k, v in o.items() if k not in ('error', 'palette', 'reused', 'neginf')} for o in obs], f)
     cfg2 = os.path.join(d, 'W_judge.cfg')
     tlc.write_cfg(cfg2, spec='JSpec', constants={'Mode': 'judge', 'MaxN': max_n})
     res2 = tlc.must_ok(tlc.run_tlc('Warp', cfg2, d, workers=1, env={'TRACE_FILE': path}, timeout=3000), 'Warp/judge')
@@ -133,7 +150,7 @@ def run(ctx):
     counts[(o['pipeline'], v)] += 1
     if v not in ('ok',):
       has_missing = 0 in o['ranks']
-      ctx.violation({'via': 'warp', 'pipeline': o['pipeline'], 'verdict': v, 'with_missing_entries': has_missing, 'instance_reused': o['reused']},
+      ctx.violation({'via': 'warp', 'pipeline': o['pipeline'], 'verdict': v, 'with_missing_entries': has_missing, 'missing_as_neginf': o.get('neginf', False), 'instance_reused': o['reused']},
                     {'kind': 'warp', 'pipeline': o['pipeline'], 'ranks (0 = missing)': o['ranks'], 'palette': o['palette'],
                      'input': [None if r == 0 else PALETTES[o['palette']](r, max(o['ranks'])) for r in o['ranks']], 'error': o.get('error')})
   ctx.log('  %d weak orders with missing entries (n <= %d) -> %d warps; verdicts %s' % (len(orders), max_n, len(obs), {('%s:%s' % k): v for k, v in counts.items() if k[1] != 'ok'}))
